@@ -12,6 +12,7 @@ import GormModel.Lemmas.Upsert
 import GormModel.Model.UpsertClause
 import GormModel.Lemmas.UpsertKeys
 import GormModel.Lemmas.UpsertScan
+import GormModel.Lemmas.UpsertForms
 namespace Gorm
 open Gorm.Upsert
 
@@ -1497,5 +1498,121 @@ example : (∀ e ∈ ([{ nz := true, ret := some 1 }, { nz := false, ret := some
   · decide
 
 end ScanOrder
+
+/-! ## Round 5 — the SPELLING and FORM of conditions / Attrs / Assign, and the record of a statement that stored nothing
+
+  `Model.UpsertForms` A: the record FirstOrInit / FirstOrCreate build when nothing matches, with names resolved the way
+  `assignInterfacesToValue` resolves them (regenerated: which table each site consults).  B: the guard in front of the
+  key back-fill of the branch without RETURNING. -/
+section Forms
+open Gorm.UpsertForms
+
+/-- the regenerated tree: `LookUpField` tries columns first, Go names second; all three sites of
+    `assignInterfacesToValue` resolve through it -/
+theorem C16_gen_assign_sites : genLookUpField = full ∧ genSites.allFull :=
+  ⟨by decide, by decide, by decide, by decide⟩
+
+/-- `LookUpField` reaches a field by its column name AND by its Go name (legal schema: distinct columns, distinct Go
+    names, no Go name that is another field's column) -/
+theorem C16_lookup_either_spelling {fs : List FField} (hwf : WF fs) {i : Nat} {f : FField} (hi : fs[i]? = some f) :
+    lookUp full fs f.db = some i ∧ lookUp full fs f.go = some i :=
+  ⟨lookUp_db hwf hi, lookUp_go hwf hi⟩
+
+/-- a name no field carries is skipped, whatever tables are consulted (unknown map keys are not an error) -/
+theorem C16_unknown_key_ignored (o : Order) {fs : List FField} {n : Name} (h : ∀ f ∈ fs, f.db ≠ n ∧ f.go ≠ n)
+    (r : Rec) (v : Nat) : assignEq o fs r (n, v) = r := by
+  simp [assignEq, lookUp_unknown o h]
+
+/-- the record of the not-found case depends only on the SEQUENCE of (field, value) pairs the conditions, Attrs and
+    Assign contribute — not on their form (map / pair / clause.Eq with a string or a clause.Column / struct) nor on
+    the spelling of any name (column or Go field name): two chains whose contributions name the same fields with the
+    same values, pair by pair, build the same record. -/
+theorem C16_built_record_form_and_spelling_invariant (s : Sites) (hs : s.allFull) {fs : List FField} (hwf : WF fs)
+    (c a g c' a' g' : List Arg) (h : RespellL fs (allKvs (c ++ a ++ g)) (allKvs (c' ++ a' ++ g'))) :
+    build s fs c a g = build s fs c' a' g' := by
+  unfold build
+  rw [foldl_applyArg hs, foldl_applyArg hs]
+  exact foldl_respell hwf h _
+
+/-- … and that is the current tree -/
+theorem C16_built_record_current_tree {fs : List FField} (hwf : WF fs)
+    (c a g c' a' g' : List Arg) (h : RespellL fs (allKvs (c ++ a ++ g)) (allKvs (c' ++ a' ++ g'))) :
+    build genSites fs c a g = build genSites fs c' a' g' :=
+  C16_built_record_form_and_spelling_invariant genSites C16_gen_assign_sites.2 hwf c a g c' a' g' h
+
+/-- each contribution lands in the field it names: the last pair of the sequence decides its field -/
+theorem C16_built_record_last_pair (s : Sites) (hs : s.allFull) {fs : List FField} (hwf : WF fs)
+    (c a g : List Arg) (kvs : List (Name × Nat)) (n v : Nat) (hk : allKvs (c ++ a ++ g) = kvs ++ [(n, v)])
+    {i : Nat} {f : FField} (hi : fs[i]? = some f) (hn : n = f.go ∨ n = f.db) :
+    (build s fs c a g)[i]? = some v := by
+  unfold build
+  rw [foldl_applyArg hs, hk, List.foldl_append]
+  simp only [List.foldl_cons, List.foldl_nil]
+  rw [assignEq_either hwf hi _ n v hn]
+  have hlen : ∀ (l : List (Name × Nat)) (r : Rec), (l.foldl (assignEq full fs) r).length = r.length := by
+    intro l
+    induction l with
+    | nil => intro r; rfl
+    | cons x xs ih =>
+      intro r
+      simp only [List.foldl_cons]
+      rw [ih]
+      unfold assignEq
+      cases lookUp full fs x.1 <;> simp
+  have hlt : i < fs.length := by
+    rcases Nat.lt_or_ge i fs.length with h | h
+    · exact h
+    · simp [List.getElem?_eq_none h] at hi
+  simp [hlen, hlt]
+
+/-- COUNTEREXAMPLE for a tree whose Eq sites consult `FieldsByDBName` only: `Attrs(map{"Age": 20})` on a schema
+    {Name→name, Age→age} builds a record WITHOUT the age; the current tree builds it with the age, under either spelling -/
+theorem C16_dbname_only_counterexample :
+    let fs : List FField := [{ go := 10, db := 11 }, { go := 20, db := 21 }]
+    let dbOnly : Sites := { eqString := [true], eqColumn := [true], structField := full }
+    build dbOnly fs [.eqs [(11, 1)]] [.eqs [(20, 5)]] [] = [1, 0] ∧
+    build genSites fs [.eqs [(11, 1)]] [.eqs [(20, 5)]] [] = [1, 5] ∧
+    build genSites fs [.cols [(10, 1)]] [.eqs [(21, 5)]] [] = [1, 5] := by
+  decide
+
+example : WF [{ go := 10, db := 11 }, { go := 20, db := 21 }, { go := 30, db := 30 }] := by
+  intro i j f g hi hj h
+  match i, j with
+  | 0, 0 | 1, 1 | 2, 2 => rfl
+  | 0, 1 | 0, 2 | 1, 0 | 1, 2 | 2, 0 | 2, 1 =>
+    simp at hi hj; subst hi; subst hj; simp at h
+  | i + 3, _ => simp at hi
+  | 0, j + 3 | 1, j + 3 | 2, j + 3 => simp at hj
+
+open Gorm.Scan
+
+/-- with the guard, the back-fill of the branch without RETURNING is C03's `createBackfill` -/
+theorem C16_backfill_guarded_is_c03 (gk rev hd ai it : Bool) (inc : Int) (ks : List Key) (r : ExecResult) :
+    backfillG true gk rev hd ai it inc ks r = createBackfill gk rev hd ai it inc ks r := rfl
+
+/-- a statement that stored nothing (`RowsAffected = 0`: DO NOTHING hit a conflict, a DO UPDATE guard was false) leaves
+    every key of the caller's value as it was — whatever `LastInsertId()` reports (on SQLite: the last insert of the
+    connection, in any table) -/
+theorem C16_unstored_not_backfilled (gk rev hd ai it : Bool) (inc : Int) (ks : List Key) (r : ExecResult)
+    (h : r.rowsAffected = 0) : backfillG true gk rev hd ai it inc ks r = ks := by
+  simp [backfillG, createBackfill, createBackfillSlice, h]
+
+/-- the regenerated tree has the guard: `if db.RowsAffected == 0 { return }` is the statement right after
+    `db.RowsAffected, _ = result.RowsAffected()`, in front of the `LastInsertId()` read -/
+theorem C16_gen_backfill_guarded : genGuarded = true := by
+  decide
+
+theorem C16_unstored_not_backfilled_current_tree (gk rev hd ai it : Bool) (inc : Int) (ks : List Key) (r : ExecResult)
+    (h : r.rowsAffected = 0) : backfillG genGuarded gk rev hd ai it inc ks r = ks := by
+  rw [C16_gen_backfill_guarded]; exact C16_unstored_not_backfilled gk rev hd ai it inc ks r h
+
+/-- COUNTEREXAMPLE for a tree without the guard: a keyless record that conflicted under DO NOTHING (0 rows) receives
+    the connection's last insert id 7 — another row's, possibly another table's, key -/
+theorem C16_unguarded_backfill_counterexample :
+    backfillG false true true true true true 1 [0] { rowsAffected := 0, lastInsertId := some 7 } = [7] ∧
+    backfillG true true true true true true 1 [0] { rowsAffected := 0, lastInsertId := some 7 } = [0] := by
+  decide
+
+end Forms
 
 end Gorm
